@@ -45,6 +45,7 @@ package driver
 //@   requires [caller=Memory] [C09] [write-lock-held] GwLocks > 0
 //@   ensures [absent] !old(hasKey(*rs, key)) ==> r == nil && *rs == old(*rs)
 //@   ensures [found] old(hasKey(*rs, key)) ==> r != nil && r.key == key && len(*rs) == old(len(*rs)) - 1 && !hasKey(*rs, key)
+//@   ensures [returned-was-in-the-list] r != nil ==> (exists j int :: 0 <= j && j < old(len(*rs)) && old((*rs)[j]) == r)
 //@   ensures [others-kept] forall k string :: k != key && old(hasKey(*rs, k)) ==> hasKey(*rs, k)
 
 //@ func (*records).Replace
@@ -98,17 +99,31 @@ package driver
 
 // the other entry points of the memory driver: their contracts only carry the lock-discipline
 // obligations (the record-list operations they call require the lock)
+// ---- C10: the memory driver finds and deletes what it stored, for every release name (a name may
+// contain ".v": keys are "sh.helm.release.v1.<name>.v<revision>")
+//@ ghost func memKey(name string, d string) string = "sh.helm.release.v1." + name + ".v" + d
+
+//@ func splitKey
+//@   props C10
+//@   ensures [name-and-revision-recovered] forall name, d string :: !strings.Contains(d, ".") && key == memKey(name, d) ==> ok && result0 == name && result1 == d
+
 //@ func (*Memory).Get
-//@   props C09
+//@   props C09 C10
 //@   requires memWF(mem) && GwLocks >= 0 && GrLocks >= 0
+//@   ensures [stored-release-is-found] [C10] forall name, d string :: isDecInt(d) && key == memKey(name, d) && old(memHas(mem, mem.namespace, name, key)) ==> result1 == nil && result0 != nil
+//@   ensures [only-what-is-stored] [C10] result1 == nil ==> (exists name string, j int :: has(mem.cache, mem.namespace) && has(mem.cache[mem.namespace], name) && 0 <= j && j < len(mem.cache[mem.namespace][name]) && mem.cache[mem.namespace][name][j].key == key && mem.cache[mem.namespace][name][j].rls == result0)
 
 //@ func (*Memory).Update
 //@   props C09
 //@   requires memWF(mem) && rls != nil && rls.Info != nil && GwLocks >= 0 && GrLocks >= 0
 
 //@ func (*Memory).Delete
-//@   props C09
+//@   props C09 C10
 //@   requires memWF(mem) && GwLocks >= 0 && GrLocks >= 0
+//@   ensures [stored-release-is-deleted] [C10] forall name, d string :: isDecInt(d) && key == memKey(name, d) && old(memHas(mem, mem.namespace, name, key)) ==> result1 == nil
+//@   ensures [deleted-release-is-returned] [C10] result1 == nil ==> result0 != nil
+//@   ensures [deleted-release-is-gone] [C10] forall name, d string :: isDecInt(d) && key == memKey(name, d) && result1 == nil ==> !memHas(mem, mem.namespace, name, key)
+//@   ensures [missing-key-changes-nothing] [C10] result1 != nil ==> result0 == nil && (forall ns, name string :: has(mem.cache, ns) == old(has(mem.cache, ns)) && (has(mem.cache, ns) ==> has(mem.cache[ns], name) == old(has(mem.cache[ns], name)) && (has(mem.cache[ns], name) ==> mem.cache[ns][name] == old(mem.cache[ns][name]))))
 
 //@ func (*Memory).Create
 //@   props C09 C10
